@@ -149,6 +149,53 @@ FILTER_PROGS = [
 ]
 
 
+def filter_matrix():
+    """where a filter statement is written x what its pattern / action does: every combination must end in a
+    terminal outcome (compile diagnostics, runtime error, exit status) - never a crash"""
+    places = {
+        "top": "let g0 = 7;\n%s\n",
+        "function": "let g0 = 7;\nfn f(a) { let k = 5; %s }\nf(1);\n",
+        "function-not-called": "let g0 = 7;\nfn f(a) { let k = 5; %s }\n",
+        "block": "let g0 = 7;\n{ let k = 5; let a = 1; %s }\n",
+        "loop": "let g0 = 7;\nlet i = 0; while i < 2 { i = i + 1; let k = i; let a = 1; %s }\n",
+        "if": "let g0 = 7;\nif true { let k = 5; let a = 1; %s }\n",
+        "nested-function": "let g0 = 7;\nfn f(a) { fn g(k) { %s } g(2); }\nf(1);\n",
+        "closure": "let g0 = 7;\nlet h = fn(a) { let k = 5; %s };\nh(1);\n",
+        "match-arm": "let g0 = 7;\nmatch 1 { 1 => { let k = 5; let a = 1; %s } }\n",
+        "filter-action": "let g0 = 7;\n@ true { let k = 5; let a = 1; %s }\n",
+    }
+    filters = {
+        "plain": "@ true { eprintln(\"hit\"); }",
+        "pattern-only": "@ true",
+        "return": "@ true { return; }",
+        "return-value": "@ true { return 1; }",
+        "break": "@ true { break; }",
+        "continue": "@ true { continue; }",
+        "read-param": "@ true { eprintln(\"{}\", a); }",
+        "read-local": "@ true { eprintln(\"{}\", k); }",
+        "read-global": "@ true { eprintln(\"{}\", g0); }",
+        "pattern-reads-param": "@ a == 1 { eprintln(\"hit\"); }",
+        "pattern-reads-local": "@ k > 0",
+        "write-local": "@ true { k = 9; }",
+        "write-global": "@ true { g0 = g0 + 1; }",
+        "closure-over-action-local": "@ true { let z = NP; let c = fn() { z }; eprintln(\"{}\", c()); }",
+        "closure-over-param": "@ true { let c = fn() { a }; eprintln(\"{}\", c()); }",
+        "rterror": "@ true { let x = [1][5]; }",
+        "exit": "@ true { exit(3); }",
+        "end": "@ end { eprintln(\"{}\", NP); }",
+        "end-reads-local": "@ end { eprintln(\"{}\", k); }",
+        "end-return": "@ end { return 2; }",
+        "recursive-call": "@ true { f(0); }",
+        "packet-field": "@ $1.type == 2048 { $2.ttl = 1; }",
+        "loop-in-action": "@ true { let i = 0; while i < 3 { i = i + 1; if i == 2 { continue; } } }",
+    }
+    out = []
+    for pn, pt in places.items():
+        for fname, ft in filters.items():
+            out.append(("matrix place=%s filter=%s" % (pn, fname), pt % ft, "terminal"))
+    return out
+
+
 def end_to_end(rep, tier, rnd):
     core.build_binary()
     frames = [pcapfmt.simple_tcp_frame(b"x" * n) for n in (0, 1, 40)]
@@ -170,6 +217,9 @@ def end_to_end(rep, tier, rnd):
     add("exit-wrong-kind", ["-c", "exit(\"a\"); puts(1);"], b"", "rterror")
     add("overflow-then-echo", ["-c", "let i = 0; loop { i = i + 1; 1 + (if true { continue; 1 } else { 2 }); }"], b"", "rterror")
     add("rterror-exits-normally", ["-c", "1 / 0"], b"", "rterror")
+    matrix = filter_matrix()
+    for tag, src, want in matrix:
+        add("filter %s" % tag, ["-s", "-c", src], cap, want)
     for tag, src, want in FILTER_PROGS:
         for skip in (False, True):
             add("filter %s%s" % (tag, " -s" if skip else ""), (["-s"] if skip else []) + ["-c", src], cap, want)
